@@ -114,6 +114,13 @@ CLAIMED = {
              "(sum N_i(u_k) P_i = Q_k; end/corner points; normal equations N^T (N P - Q) = 0) on the returned control points.",
         technique="TLA+ spec (Fitting, MC_C11) model-checked exhaustively with TLC; spec->code replay with condition checking",
         design="4 C11"),
+    "C15": dict(
+        text="TLC proves the specified grid->triangle mesh valid (in-range consecutive ids, CCW orientation, exact tiling by signed areas, edge "
+             "incidence 2/1, Euler characteristic 1) for all sample sizes and admissible spacings, and classifies cells against polygonal trims; "
+             "every mesh produced by geomdl is sent back to TLC and validated against the same ValidTriangulation predicate (trace validation); "
+             "vertex parameters/positions, quad meshes, trims, container offsets and OBJ/OFF/STL(ascii, binary) exports are replayed.",
+        technique="TLA+ spec (Mesh, MC_C15) model-checked with TLC; code->spec trace validation of every recorded mesh (Trace_C15) + replay",
+        design="4 C15"),
 }
 
 PENDING_REASON = "check not built yet (work in progress, see DESIGN.md section 8 build order)"
